@@ -429,3 +429,15 @@ package server
 //@   requires s != nil && params != nil && s.analyzer != nil && DocSmall(s, params.TextDocument.URI)
 //@   ensures [C16:bounded] result0 != nil && (s.settings.Completion.MaxResults > 0 ==> len(result0.Items) <= s.settings.Completion.MaxResults)
 //@   loop 1 invariant 0 - 1 <= rangeindex && (fresh(items) || len(items) == 0) && editRange != nil
+
+// ---- C18: the server passes the workspace's declared accounts AND commodities to the analysis, whatever the settings ----
+//@ trusted toProtocolSeverity
+//@   effects none
+
+//@ func (*Server).analyze
+//@   props C18 C02 C08
+//@   requires s != nil && s.analyzer != nil && len(content) < 4294967294
+//@   ensures [C18:ws_declarations_passed] old(s.workspace) != nil ==> external.Accounts == wsAcc(old(s.workspace)) && external.Commodities == wsCom(old(s.workspace))
+//@   modifies s.workspace.cachedAccounts, s.workspace.cachedCommodities
+//@   loop 1 invariant 0 - 1 <= rangeindex && rangeindex <= len(parseErrs) - 1
+//@   loop 2 invariant 0 - 1 <= rangeindex && rangeindex <= len(result.Diagnostics) - 1 && result != nil && DiagsOK(result)
